@@ -258,6 +258,8 @@ def validate_ace_line(line: str, platform: str, acl_type: str, port_vocab, proto
     if acl_type == "extended":
         idx = 1 if toks[0].isdigit() else 0
         ptok = toks[idx + 1]
+        if (sem["sport"] or sem["dport"]) and ptok not in ("tcp", "udp"):
+            problems.append(f"port operators after protocol {ptok!r}: the library's own convention (has_port) keeps the tcp/udp keyword")
         if not ptok.isdigit() and ptok not in proto_vocab:
             problems.append(f"protocol name {ptok!r} unknown on {platform}")
         if pname:
